@@ -95,6 +95,9 @@ func (w *World) runOracles(pre *Snapshot, op Op, res *StepResult, post *Snapshot
 	if on("C13") {
 		w.oracleC13(pre, op, res, post)
 	}
+	if on("C19") {
+		w.oracleC19(post)
+	}
 }
 
 // ---------------------------------------------------------------------------------------------- C01
